@@ -15,7 +15,7 @@ Grid == { DD(FALSE, <<>>, 0), DD(FALSE, <<5>>, -1), DD(TRUE, <<5>>, -1), DD(FALS
           DD(TRUE, <<4,9,9,9,9,9,9,9,9,9,9,9,9,9,9>>, -15), DD(FALSE, <<2,0,0,0,0,0,0,0,0,0,1>>, -10), DD(TRUE, <<1,9,9,9,9,9,9,9,9,9,9>>, -10),
           DD(FALSE, <<1,2,3,4,5,6,7,8,9,0,1,2,3,4,5>>, 0), DD(FALSE, <<9,9,9,9,9,9,9,9,9,9,9,9,9,9,5>>, -1), DD(TRUE, <<1,2,3,4,5,6,7,8,9,0,1,2,3,4,5>>, -1),
           DD(FALSE, <<1>>, 15), DD(FALSE, <<1,5>>, -16), DD(TRUE, <<1>>, -15), DD(FALSE, <<1,2,3>>, 13), DD(FALSE, <<9,9,9>>, -3),
-          DD(FALSE, <<1,0,0,5>>, -1), DD(TRUE, <<1,0,0,5>>, -1), DD(FALSE, <<1,2,5>>, -2), DD(TRUE, <<8,7,5>>, -3) }
+          DD(FALSE, <<1,0,0,5>>, -1), DD(TRUE, <<1,0,0,5>>, -1), DD(FALSE, <<1,5>>, 9), DD(FALSE, <<2,5>>, 9), DD(TRUE, <<1,2,5>>, 18), DD(FALSE, <<1,5>>, -11), DD(FALSE, <<3,7,5>>, -22), DD(FALSE, <<1,5>>, 99), DD(FALSE, <<1,2,5>>, -2), DD(TRUE, <<8,7,5>>, -3) }
 Lt(x) == IF x[1] THEN <<"Pre", "-", <<"Lit", "Num", <<FALSE, x[2], x[3]>>>>>> ELSE <<"Lit", "Num", x>>
 C(f, as) == <<"Call", Id(f), as, FALSE>>
 Small == { DD(FALSE, <<>>, 0), DD(FALSE, <<1>>, 0), DD(TRUE, <<1>>, 0), DD(FALSE, <<1,5>>, -1), DD(FALSE, <<1,5,0>>, -2), DD(TRUE, <<2,5>>, -1),
